@@ -87,12 +87,12 @@ def merge_targets(lay):
     return out
 
 
-def mutations(rng, tier, w, lay, n, exhaustive_framing):
+def mutations(rng, tier, w, lay, n, exhaustive_framing, bsize_all=True):
     muts = [[0, k] for k in range(n)] + merge_targets(lay)
     vals_small = [0, 1, 0x80, 0xff]
     for pos in range(n):
         reg, _, o = region(lay, pos)
-        if (exhaustive_framing and 'payload' not in reg) or reg.endswith('bsize'):
+        if (exhaustive_framing and 'payload' not in reg) or (bsize_all and reg.endswith('bsize')):
             vs = range(256)
         else:
             vs = set(vals_small + [rng.randrange(256) for _ in range(2 if tier == 'quick' else 12)])
@@ -191,7 +191,7 @@ def run(res, rng, tier):
         n = lay['len']
         if n > maxlen:
             continue
-        muts = mutations(rng, tier, w, lay, n, exhaustive_framing=(wi == ex or tier != 'quick'))
+        muts = mutations(rng, tier, w, lay, n, exhaustive_framing=(wi == ex or tier != 'quick'), bsize_all=(tier != 'quick' or wi % 3 == 0))
         res.count('%s/bsize-merge-targets' % w['kind'], len(merge_targets(lay)))
         for rd in (1, 2):
             step = 1500
@@ -275,6 +275,6 @@ CLAIM = dict(
     text='Machine-checked proof (Coq 8.16.1) over a byte-level model of the BGZF member reader on arbitrary bytes (gzip header parse, BSIZE, exact-size member read, inflate as a Section function, CRC-32/ISIZE check, multistream, HasEOF): '
          'every proper prefix of a closed stream yields a prefix of the data and then an error, or a clean end exactly at a member boundary; accepted data always carries the CRC-32 and length stored in the trailer; a changed CRC/ISIZE byte is rejected. '
          'The model is evaluated in Coq (stored deflate + CRC-32 in Coq) on every truncation and on sampled substitutions of level-0 streams and compared with the implementation; an independent oracle judges every truncation length and byte substitution of small BGZF and BAM streams for rd=1,2.',
-    note='Partial: HasEOF=false at a boundary needs "no data member is byte-identical to the EOF marker"; payload substitutions that keep CRC-32 and length cannot be excluded; BSIZE/header substitutions and the BAM record layer are covered by enumeration on the implementation, not by theorem.',
+    note='Proved: truncation incl. HasEOF not true at the cut and the BAM record layer (framing level); CRC/ISIZE, BSIZE (any value; multistream joins members), ID1/ID2/CM, ignored FLG bits. Partial: payload substitutions that keep CRC-32 and length cannot be excluded; FLG with FEXTRA cleared or FNAME/FCOMMENT/FHCRC set, XLEN, SI1/SI2/SLEN are decided by enumeration on the implementation only. DEFLATE laws: inflate(deflate d ++ r) = (d, r); a proper prefix of a deflate stream does not decode.',
     technique='Coq proof over a byte-level parser model with DEFLATE/CRC as Section variables + vm_compute correspondence on stored streams + exhaustive mutation oracle',
     design='6/C10')
